@@ -207,16 +207,24 @@ def remote_src(prog):
                                for i, a in enumerate(m["args"]))
                 call_args = "".join(", %s.clone()" % a["n"] for a in m["args"])
                 encs = ", ".join('("%s", rec::enc(&%s))' % (a["n"], a["n"]) for a in m["args"])
+                generic = prog.get("family") == "generic"
+                ctr = "Ctr<GenVal>" if generic else "Ctr"
                 if part["id"] == "own":
-                    hty = "Ctr"
+                    hty = ctr
                     trait_mod = "sv"
                 else:
-                    hty = "Ctr" if handle == "contract" else "dyn %s::%s<Error = ContractError>" % (part["id"], part["id"].capitalize())
+                    assoc = ", ItemT = GenVal" if (generic and uses_gen(part)) else ""
+                    hty = ctr if handle == "contract" else "dyn %s::%s<Error = ContractError%s>" % (part["id"], part["id"].capitalize(), assoc)
                     trait_mod = "%s::sv" % part["id"]
                 o.append("        { %slet addr = Addr::unchecked(\"target%d\"); let funds = verif_rrt::funds_pool(%d);\n"
                          "          let remote: Remote<%s> = %s;\n" % (
                              lets, n % 3, n, hty, "Remote::new(addr.clone())" if val == 0 else "Remote::borrowed(&addr)"))
-                if m["kind"] == "exec":
+                if m["kind"] == "exec" and generic:
+                    # (a generic contract's helper traits carry its type parameters: method-call syntax, one trait in scope)
+                    o.append("          let w = { use %s::Executor as _; remote.executor().with_funds(funds.clone()).%s(%s).map(|b| b.build()) };\n"
+                             "          remote::exec(&vt, seq, \"%s\", \"%s\", \"%s\", %d, \"%s\", &addr, &funds, vec![%s], w); seq += 1; }\n" % (
+                                 trait_mod, m["near"], call_args[2:], part["id"], m["name"], m["wire"], val, handle, encs))
+                elif m["kind"] == "exec":
                     o.append("          let w = <ExecutorBuilder<(EmptyExecutorBuilderState, %s)> as %s::Executor>::%s(remote.executor().with_funds(funds.clone())%s).map(|b| b.build());\n"
                              "          remote::exec(&vt, seq, \"%s\", \"%s\", \"%s\", %d, \"%s\", &addr, &funds, vec![%s], w); seq += 1; }\n" % (
                                  hty, trait_mod, m["near"], call_args, part["id"], m["name"], m["wire"], val, handle, encs))
@@ -226,9 +234,11 @@ def remote_src(prog):
                              "          let mut deps = sylvia::cw_std::testing::mock_dependencies();\n"
                              "          deps.querier.update_wasm(move |wq| remote::query_handler(&self::vt(), sq, \"%s\", \"%s\", \"%s\", %d, \"%s\", &a2, argsj.clone(), wq));\n"
                              "          let wrapper: QuerierWrapper<Empty> = QuerierWrapper::new(&deps.querier);\n"
-                             "          let r = <BoundQuerier<Empty, %s> as %s::Querier>::%s(&remote.querier(&wrapper)%s);\n"
+                             "          let r = %s;\n"
                              "          remote::query_result(&vt, \"%s\", \"%s\", %d, r.map(|v| rec::enc(&v)).map_err(|e| e.to_string())); seq += 1; }\n" % (
-                                 encs_v, part["id"], m["name"], m["wire"], val, handle, hty, trait_mod, m["near"], call_args,
+                                 encs_v, part["id"], m["name"], m["wire"], val, handle,
+                                 ("{ use %s::Querier as _; remote.querier(&wrapper).%s(%s) }" % (trait_mod, m["near"], call_args[2:])) if generic
+                                 else ("<BoundQuerier<Empty, %s> as %s::Querier>::%s(&remote.querier(&wrapper)%s)" % (hty, trait_mod, m["near"], call_args)),
                                  part["id"], m["name"], val))
     own = [p for p in prog["parts"] if p["id"] == "own"][0]
     inst = [m for m in own["methods"] if m["kind"] == "instantiate"][0]
@@ -247,7 +257,7 @@ def remote_src(prog):
         else:
             o.append("          let w = b.map(|b| b.with_label(\"l2\").build2(sylvia::cw_std::Binary::from(b\"salt\".to_vec())));\n"
                      "          remote::instantiate(&vt, seq, %d, \"salted\", %d, \"l2\", \"\", &[], \"c2FsdA==\", vec![%s], w); seq += 1; }\n" % (val, 40 + val, encs))
-    o.append("        { let addr = Addr::unchecked(\"target9\"); let remote: Remote<Ctr> = Remote::new(addr.clone());\n"
+    o.append("        { let addr = Addr::unchecked(\"target9\"); let remote: Remote<%s> = Remote::new(addr.clone());\n" % ("Ctr<GenVal>" if prog.get("family") == "generic" else "Ctr") +
              "          remote::admin(&vt, \"update_admin\", &addr, \"new_adm\", remote.update_admin(\"new_adm\"));\n"
              "          remote::admin(&vt, \"clear_admin\", &addr, \"\", remote.clear_admin()); }\n"
              "        let _ = seq;\n    }\n\n")
@@ -554,8 +564,7 @@ def program_src(prog):
         o.append("            \"%s\" => { let (v, b) = %s; CallOut::Done(v, b) }\n" % (k, call))
     o.append("            _ => CallOut::Absent,\n        }\n    }\n\n")
     o.append("    fn encode_events() {\n" + encode_src(prog) + "    }\n\n")
-    if not generic:
-        o.append(remote_src(prog))
+    o.append(remote_src(prog))
     o.append(schema_src(prog))
     if prog.get("builder"):
         o.append(builder_src(prog))
@@ -563,7 +572,7 @@ def program_src(prog):
     if with_mt:
         o.append(mt_src(prog))
     parts = ", ".join('"%s"' % p["id"] for p in prog["parts"])
-    o.append("    pub fn vt() -> ProgVt {\n        ProgVt { id: \"%s\", lists, decode_wrapper, decode_part, decode_struct, call_ep, call_mt, encode_events, schema_events: Some(schema_events), parts: &[%s], remote_events: %s, mt_histories: %s, builder_events: %s }\n    }\n" % (pid, parts, "None" if (prog.get("overrides") or generic) else "Some(remote_events)", "Some(mt_histories)" if with_mt else "None", "Some(builder_events)" if prog.get("builder") else "None"))
+    o.append("    pub fn vt() -> ProgVt {\n        ProgVt { id: \"%s\", lists, decode_wrapper, decode_part, decode_struct, call_ep, call_mt, encode_events, schema_events: Some(schema_events), parts: &[%s], remote_events: %s, mt_histories: %s, builder_events: %s }\n    }\n" % (pid, parts, "None" if prog.get("overrides") else "Some(remote_events)", "Some(mt_histories)" if with_mt else "None", "Some(builder_events)" if prog.get("builder") else "None"))
     o.append("}\n")
     return "".join(o)
 
